@@ -93,8 +93,13 @@ def run(ctx):
         bP = {"P": leaf[0][1]["P"]}
         rec = find_expr("add_dict_to_hdf5_file(hdf5_file, $$P + $$k + '/', $$v)", ad.node, bP) + find_expr("$$S.append(($$P + $$k + '/', $$v))", ad.node, bP)
         descents = [c_ for c_ in walk_no_nested(ad.node) if isinstance(c_, ast.Call) and ((call_name(c_) or "") == "add_dict_to_hdf5_file" or (isinstance(c_.func, ast.Attribute) and c_.func.attr in ("append", "extend", "insert", "appendleft") and c_.args and isinstance(c_.args[0], ast.Tuple)))]
-        loop = [n_ for n_ in walk_no_nested(ad.node) if isinstance(n_, ast.If) and match_expr("isinstance($$v, dict)", n_.test) is not None]
-        okh5 = len(rec) == 1 and len(descents) == 1 and len(loop) == 1
+        # dictionaries descend, everything else is a leaf - read from the guards of the two statements (either arm order)
+        ada = FA(ad)
+        vname = src(leaf[0][1]["v"])
+        from ..q import holds as _holds
+        leaf_ok = _holds(guard_facts(ada, ada.cfg.id_of(leaf[0][0])), f"isinstance({vname}, dict)", False)
+        desc_ok = len(descents) == 1 and _holds(guard_facts(ada, ada.cfg.id_of(descents[0])), f"isinstance({vname}, dict)", True)
+        okh5 = len(rec) == 1 and len(descents) == 1 and leaf_ok and desc_ok
     else:
         okh5 = False
     ctx.ob("R-WRITERS", "C19.3", ad, "every leaf value passes through encode_for_hdf5 and nested dictionaries recurse with the extended path", okh5, "")
